@@ -532,7 +532,7 @@ def st_input():
                "k_and_deriv(X, copy of X) (documented convention: Y stationary; not asserted below a white-noise factor, which "
                "is delta_ij only for Y=None); PartialRBF/PartialARBF failures are collapsed into one class each; "
                "non-trivial as gram",
-          tolerances={"fd_rtol": 1e-6, "value_rtol": 1e-13, "fd_floor": "4e-14 * R / h, R = forward error model of K"})
+          tolerances={"fd_rtol": 1e-6, "value_rtol": 1e-13, "fd_floor": "4e-14 * R / h (R = forward error model of K) + 9e-16 |x| |f_xx| (rounding of the stepped argument, f_xx from the stencil samples)"})
 def input_grad(case, ctx):
     spec = case["kernel"]
     X, Y = _XY(case, spec)
@@ -576,7 +576,7 @@ def _input_grad_node(ctx, sub, Xs, Ys):
             return k(Xp, Ys)
 
         fd_check_vec(ctx, f, dk[:, :, fcol], ("fd", fam, cf), h, rtol=1e-6, atol=1e-13 * amax + 1e-200 + 4e-14 * R / h,
-                     feature=fcol, cls=G.cls_name(sub))
+                     xabs=np.abs(Xs[:, fcol])[:, None], feature=fcol, cls=G.cls_name(sub))
     k0, dk0 = G.guard(ctx, ("k_and_deriv_y_none", fam, cf), lambda: k.k_and_deriv(Xs))
     R0 = np.maximum(G.error_model(sub, Xs, None)[1], max(float(np.max(np.abs(k0))), 1e-300))
     ctx.close(np.asarray(k0) / R0, np.asarray(k(Xs)) / R0, ("y_none_value", fam, cf), rtol=1e-13, scale=1.0)
